@@ -23,3 +23,27 @@ def queries(tier):
             b4 = {'IsEqual|vf_buf.*|h_check_loop_var': L + 2, 'checkLoopVariable': 3}
             qs.append(Query('check_loop_var/%s/L%d' % (ch, L), 'C01_leaf.cpp', 'h_check_loop_var', {'L': L, 'CHAR': ch}, bounds=b4, cflags=['-Dprotected=public'], timeout=600))
     return qs
+
+
+# ---- driver family: the REAL TemplateCore::Parse + Render on concrete templates (C02 family) and on their TRUNCATIONS, real Value, symbolic leaf strings ----
+import importlib.util as _ilu, os as _os, copy as _copy, json as _json
+_sp = _ilu.spec_from_file_location('spec_C02_for_C01', _os.path.join(_os.path.dirname(_os.path.abspath(__file__)), 'C02.py')); _c02 = _ilu.module_from_spec(_sp); _sp.loader.exec_module(_c02)
+_leaf_queries = queries
+META['functions'] = META['functions'] + ['driver family: Template::Render = TemplateCore::parse + render*/getValue/evaluate (Template.hpp) with the real Value<char>, on exact-size template buffers']
+META['bounds'] += (' || driver family: every member of the C02 template family and (quick: every 6th of four templates, thorough: every) truncation point of it, in an exact-size heap buffer, rendered twice against real value trees with symbolic leaf strings: '
+                   'every access inside the buffer / owned memory, no trap, termination within the unwinding bounds')
+META['outside'] = META['outside'].replace('the scanner DRIVER TemplateCore::parse and the renderer over symbolic template text: out of reach', 'the scanner driver and the renderer over SYMBOLIC template text: out of reach (covered only on the listed concrete template family and its truncations)')
+MALFORMED = [('if_if_loop', '<if case="1"><if case="1"><loop value="v">{var:v}</loop></if></if>', 3), ('math_else', '{math:1+1<else>}', 0), ('mod_zero', '{math:5%0}', 0), ('div_zero', '{math:5/0}', 0),
+             ('unclosed_loop', '<loop value="v">{var:v}', 3), ('else_without_if', 'a<else>b</if>c', 0), ('nested_iif', '{if case="1" true="{if case="1" true="x"}"}', 0)]
+def queries(tier):
+    qs = _leaf_queries(tier)
+    step = 6 if tier == 'quick' else 1
+    for name, tpl, val, exp in _c02.FAMILY:
+        if tier == 'quick' and name not in ('loop_set', 'if_elseif', 'inline_if', 'svar'): continue
+        for cut in range(1, len(tpl), step):
+            qs.append(Query('driver/cut/%s/%d' % (name, cut), 'C02_render.cpp', 'h_render', {'TPL': _json.dumps(tpl), 'VAL': val, 'EXPECT': exp, 'CUT': cut}, bounds=_c02.B(len(tpl)), default_unwind=5,
+                            default_rec=3, rec_bounds={'~Value': 2, 'render|evaluate|parseExpressions': 4}, timeout=600, mem_gb=14))
+    for name, tpl, val in MALFORMED:
+        qs.append(Query('driver/malformed/%s' % name, 'C02_render.cpp', 'h_render', {'TPL': _json.dumps(tpl), 'VAL': val, 'EXPECT': 'L("")', 'CUT': len(tpl)}, bounds=_c02.B(len(tpl)), default_unwind=5,
+                        default_rec=4, rec_bounds={'~Value': 2, 'render|evaluate|parseExpressions': 5}, timeout=600, mem_gb=14))
+    return qs
